@@ -222,7 +222,16 @@ class Run:
             return self.closer is None and all(self.state.get(t) == 'idle' for t in self.threads)
         if k == 'step':
             s = self.state.get(lab[1])
-            return isinstance(s, tuple)
+            if not isinstance(s, tuple):
+                return False
+            # a thread parked before a lock acquisition can only move when the lock is free
+            # (relevant once thread.py is repaired with a lock; a blocked thread is not a deadlock)
+            code = vars(self.cls)[s[1]].__code__
+            if self.park[code].get(s[2]) == 'LockAcquire':
+                lock = getattr(self.obj, '_lock', None)
+                if lock is not None and hasattr(lock, 'locked') and lock.locked():
+                    return False
+            return True
         raise ValueError(lab)
 
     def exc_name(self, e):
@@ -321,19 +330,35 @@ class Run:
 
 def drain_labels(run: Run, max_mon=400):
     """Complete the run: everybody finishes registering and ends, close() is called, the monitor runs on.
-    Yields labels (decided from the harness' own view of the real threads)."""
+    Yields labels (decided from the harness' own view of the real threads).  A thread waiting for a
+    lock (only possible once thread.py uses one) lets the lock holder move first."""
+    def parked(w):
+        return isinstance(run.state.get(w), tuple)
+
+    def push(w, budget=[4000]):
+        # step w until it is no longer parked; if it waits for a lock, step whoever can move
+        while parked(w):
+            budget[0] -= 1
+            if budget[0] < 0:
+                raise Deadlock('drain: no progress')
+            if run.enabled(['step', w]):
+                yield ['step', w]
+            else:
+                others = [x for x in ['M', 'C'] + sorted(run.threads) if x != w and run.enabled(['step', x])]
+                if not others:
+                    raise Deadlock(f'thread {w} waits for a lock that nobody can release')
+                yield ['step', others[0]]
+
     for t in sorted(run.threads):
-        while isinstance(run.state.get(t), tuple):
-            yield ['step', t]
+        yield from push(t)
     for t in sorted(run.threads):
         if t not in run.dead:
             yield ['die', t]
     if run.closer is None:
         yield ['close']
-    while isinstance(run.state.get('C'), tuple):
-        yield ['step', 'C']
+    yield from push('C')
     n = 0
-    while isinstance(run.state.get('M'), tuple):
+    while parked('M'):
         n += 1
         if n > max_mon:
             raise Deadlock(f'monitor still running after {max_mon} steps with every thread ended and close() called')
@@ -819,22 +844,19 @@ def _compare_thread(ctx, corr, runs):
     CH = 400
     exact = [r for r in ok_runs if r.get('kind') != 'fine']
     coarse = [r for r in ok_runs if r.get('kind') == 'fine']
-    ok_runs = exact + coarse + [None] * (-(len(exact) + len(coarse)) % CH)
-    files = {f'thr_{i // CH}': thread_cases_file(exact[i:i + CH]) for i in range(0, len(exact), CH)}
-    off = (len(exact) + CH - 1) // CH
-    ok_runs = [None] * (off * CH + len(coarse))
-    ok_runs[:len(exact)] = exact
-    ok_runs[off * CH:] = coarse
-    for i in range(0, len(coarse), CH):
-        files[f'thr_{off + i // CH}'] = thread_cases_file(coarse[i:i + CH], 'bad_from_coarse')
+    files, index = {}, {}
+    for tag, lst, fn in (('thr', exact, 'bad_from'), ('fine', coarse, 'bad_from_coarse')):
+        for i in range(0, len(lst), CH):
+            name = f'{tag}_{i // CH}'
+            files[name] = thread_cases_file(lst[i:i + CH], fn)
+            index[name] = lst[i:i + CH]
     for name, (ok, out) in ctx.coq_eval_many(files).items():
-        base = int(name.split('_')[1]) * CH
         bad = C.parse_nat_list(out) if ok else None
         if bad is None:
             corr.mismatches.append({'kind': 'coq-eval-failed', 'file': name, 'log': out[-600:]})
             continue
         for b in bad:
-            r = ok_runs[base + b]
+            r = index[name][b]
             corr.mismatches.append({'kind': 'thread', 'raises': r['raises'], 'schedule': r['labels'],
                                     'impl_outs': r['outs'], 'impl_final_active': r['final_active']})
     return len(exact) + len(coarse)
